@@ -2,7 +2,7 @@
    list of labels it stands for.
    Only statements; every proof is `exact <lemma of Proofs.VarsFacts>`. *)
 From Coq Require Import List ZArith Bool Arith.
-From Dimod Require Import Model.Vars Model.ChkC13 Proofs.VarsFacts Proofs.VarsSliceFacts.
+From Dimod Require Import Model.Vars Model.ChkC13 Proofs.VarsFacts Proofs.VarsSliceFacts Proofs.VarsCtorFacts.
 Import ListNotations.
 
 (* ---- the invariant and the reading functions ---- *)
@@ -132,7 +132,26 @@ Theorem C13_remove_err_iff : forall v l, wf v -> (remove v l = Err <-> ~ In l (t
 Proof. exact remove_err_iff. Qed.
 Print Assumptions C13_remove_err_iff.
 
-(* ---- reachability: every operation of the harness, all seven constructors ---- *)
+(* ---- constructors and copies ---- *)
+(* Variables(iterable) on a duplicate-free iterable is that list; Variables(range(n)) is [0, .., n-1] (empty for n <= 0) *)
+Theorem C13_ctor_list : forall ls, NoDup ls -> to_list (init_vars ls) = ls /\ wf (init_vars ls).
+Proof. exact init_vars_list. Qed.
+Print Assumptions C13_ctor_list.
+
+(* Variables(range(a, b, s)): whichever branch cyVariables.__init__ takes (the fast path's condition and value are
+   generated from the source), the result is the list of the range; the generic branch extends permissively and
+   _relabel hands the whole object to iter_safe_relabels (both facts read off the source) *)
+Theorem C13_ctor_range :
+  forall a b s, (s <> 0)%Z ->
+    wf (ctor_of_range a b s) /\ to_list (ctor_of_range a b s) = map LI (zrange a b s).
+Proof. exact ctor_of_range_spec. Qed.
+Print Assumptions C13_ctor_range.
+
+Theorem C13_source_dispatch_facts : gen_ctor_generic_permissive = true /\ gen_relabel_existing_is_self = true.
+Proof. split; [exact ctor_generic_is_permissive|exact relabel_existing_is_self]. Qed.
+Print Assumptions C13_source_dispatch_facts.
+
+(* ---- reachability: every operation of the harness, all ten constructors ---- *)
 Theorem C13_step_wf : forall v o, wf v -> wf (fst (fst (step v o))).
 Proof. exact step_wf. Qed.
 Print Assumptions C13_step_wf.
